@@ -4,7 +4,8 @@
    What the property text says then: a lookup that does not find its key is a
    miss whatever on_miss does afterwards (the miss is counted first); on_miss is
    called with the key; whatever it does to the cache happens then, as ordinary
-   operations; if it returns, its result is assigned to the key -- an ordinary
+   operations (its own lookups may miss and call on_miss again); if it returns, its
+   result is assigned to the key -- an ordinary
    assignment at that moment (the key may meanwhile be present) -- and returned;
    if it raises, nothing is cached and the exception leaves the lookup, except
    that get / setdefault answer a KeyError with the caller's default (a soft
@@ -13,21 +14,60 @@ From Boltons Require Import Lib.Prelude Lib.C02_Syntax Spec.C02_Spec.
 Open Scope N_scope.
 
 (* what on_miss does for a key besides computing c_on_miss's value: operations on
-   the same cache (no lookups: assignments, deletions, pop with a default, clear),
-   then possibly an exception instead of the value *)
+   the same cache, then possibly an exception instead of the value *)
 Record om_beh := mkBeh { ob_script : list op1; ob_raise : option exn }.
 
+(* what a script may contain: assignments, deletions, pop with a default, clear, and
+   reads -- membership, len, and lookups ([], get, setdefault), which may themselves miss
+   and call on_miss again (nested) *)
 Definition script_op (o : op1) : bool :=
   match o with
-  | SetItem _ _ | DelItem _ | Pop _ (Some _) | Clear => true
+  | SetItem _ _ | DelItem _ | Pop _ (Some _) | Clear
+  | GetItem _ | Get _ _ | SetDefault _ _ | Contains _ | Len => true
   | _ => false
   end.
 
-(* the operations of a script in order; their own outcomes (a KeyError of `del`) are swallowed by on_miss *)
-Definition r_run_script (c : cfg) (r : rcache) (ops : list op1) : rcache :=
-  fold_left (fun r o => fst (spec_step c r o)) ops r.
+Definition is_lookup (o : op1) : bool :=
+  match o with GetItem _ | Get _ _ | SetDefault _ _ => true | _ => false end.
 
-Definition xr_lookup (c : cfg) (beh : K -> om_beh) (r : rcache) (k : K) : rcache * res V :=
+(* one operation, given how a lookup behaves *)
+Definition xspec_step_with (lk : rcache -> K -> rcache * res V) (c : cfg) (r : rcache) (o : op1) : rcache * res outv :=
+  match o with
+  | GetItem k =>
+      match lk r k with
+      | (r', Ok v) => (r', Ok (OVal v))
+      | (r', Raise e) => (r', Raise e)
+      end
+  | Get k d =>
+      match lk r k with
+      | (r', Ok v) => (r', Ok (OVal v))
+      | (r', Raise KeyError) => (r_soft_miss r', Ok (OVal d))
+      | (r', Raise e) => (r', Raise e)
+      end
+  | SetDefault k d =>
+      match lk r k with
+      | (r', Ok v) => (r', Ok (OVal v))
+      | (r', Raise KeyError) => (r_set c (r_soft_miss r') k d, Ok (OVal d))
+      | (r', Raise e) => (r', Raise e)
+      end
+  | _ => spec_step c r o
+  end.
+
+(* the operations of a script in order: on_miss swallows the KeyError of its own
+   operations; any other exception ends the script and leaves on_miss *)
+Fixpoint r_run_script (stepf : rcache -> op1 -> rcache * res outv) (r : rcache) (ops : list op1) : rcache * option exn :=
+  match ops with
+  | [] => (r, None)
+  | o :: rest =>
+      match stepf r o with
+      | (r', Ok _) | (r', Raise KeyError) => r_run_script stepf r' rest
+      | (r', Raise e) => (r', Some e)
+      end
+  end.
+
+(* a lookup, with nesting depth n left for the lookups inside on_miss's script;
+   out of depth = the distinguished error OtherExn 9 (a cyclic behaviour table) *)
+Fixpoint xr_lookup_n (n : nat) (c : cfg) (beh : K -> om_beh) (r : rcache) (k : K) : rcache * res V :=
   match d_get (r_items r) k with
   | Some v =>
       let l := match c_cls c with LRI => r_items r | LRU => d_del (r_items r) k ++ [(k, v)] end in
@@ -38,38 +78,27 @@ Definition xr_lookup (c : cfg) (beh : K -> om_beh) (r : rcache) (k : K) : rcache
       | None => (r1, Raise KeyError)
       | Some f =>
           let r2 := mkR (r_items r1) (r_hit r1) (r_miss r1) (r_soft r1) (k :: r_calls r1) in
-          let r3 := r_run_script c r2 (ob_script (beh k)) in
-          match ob_raise (beh k) with
-          | Some e => (r3, Raise e)
-          | None => (r_set c r3 k (f k), Ok (f k))
+          match n with
+          | O => (r2, Raise (OtherExn 9))
+          | S n' =>
+              match r_run_script (xspec_step_with (xr_lookup_n n' c beh) c) r2 (ob_script (beh k)) with
+              | (r3, Some e) => (r3, Raise e)                  (* an exception from inside the script *)
+              | (r3, None) =>
+                  match ob_raise (beh k) with
+                  | Some e => (r3, Raise e)
+                  | None => (r_set c r3 k (f k), Ok (f k))
+                  end
+              end
           end
       end
   end.
 
-Definition is_lookup (o : op1) : bool :=
-  match o with GetItem _ | Get _ _ | SetDefault _ _ => true | _ => false end.
+Definition NEST : nat := 8.
+
+Definition xr_lookup (c : cfg) (beh : K -> om_beh) : rcache -> K -> rcache * res V := xr_lookup_n NEST c beh.
 
 Definition xspec_step (c : cfg) (beh : K -> om_beh) (r : rcache) (o : op1) : rcache * res outv :=
-  match o with
-  | GetItem k =>
-      match xr_lookup c beh r k with
-      | (r', Ok v) => (r', Ok (OVal v))
-      | (r', Raise e) => (r', Raise e)
-      end
-  | Get k d =>
-      match xr_lookup c beh r k with
-      | (r', Ok v) => (r', Ok (OVal v))
-      | (r', Raise KeyError) => (r_soft_miss r', Ok (OVal d))
-      | (r', Raise e) => (r', Raise e)
-      end
-  | SetDefault k d =>
-      match xr_lookup c beh r k with
-      | (r', Ok v) => (r', Ok (OVal v))
-      | (r', Raise KeyError) => (r_set c (r_soft_miss r') k d, Ok (OVal d))
-      | (r', Raise e) => (r', Raise e)
-      end
-  | _ => spec_step c r o
-  end.
+  xspec_step_with (xr_lookup c beh) c r o.
 
 Definition xspec_accept (c : cfg) (beh : K -> om_beh) (r : rcache) (o : op1) (out : res outv) : option rcache :=
   if is_lookup o
